@@ -408,10 +408,11 @@ PROPS = {
     "C09": {
         "streams": ["alloc", "allocf4"],
         "custom": c09_run,
-        "rule": "the harness runs under a counting global allocator (armed only around the decode call; self-tested on every run). For every catalogue type (~330, all sequence/map/set/list/heap/deque/string/bit-sequence/byte-buffer kinds and their nestings, derived types): valid encodings, and encodings in which each byte position in turn (every position of short encodings, 8 random positions of longer ones) is overwritten by a hostile compact count (2^16, 2^20, 2^24, 2^28, 2^30-1, 2^30, 2^32-2, 2^32-1) followed by 0, <64, 4096, 20000 or 65536 bytes of plausible payload (the tail of the valid encoding repeated, lightly perturbed); each decoded from a slice, a custom input with remaining_len = None, IoReader<Cursor> and the shared buffer (decode_from_bytes). Oracles on the implementation: largest single allocation <= max(64 KiB, 192 x input bytes) + 8 KiB + size_of::<T>(); peak live bytes <= 8 x 64 KiB + 192 x input bytes + 8 KiB + size_of::<T>() (the allowance is deliberately wider than the crate's 16 KiB constant: the property demands a FIXED allowance, not this value); no panic; a request above 2 GiB is refused, and the resulting abort is attributed to the request being executed. Outcomes of inputs of at most 80 bytes are also compared with the model. non-trivial = distinct request whose model answer is not `err`",
-        "level_text": "Proved in Lean on the model's decoder programs, for every claimed count up to 2^32-1 and every element size: each speculative reservation of the chunked vector readers (item-by-item and bulk) is at most MAX_PREALLOCATION = 16 KiB and is made one chunk at a time, the next only after the previous chunk's items were decoded from real input; a primitive vector whose count promises more bytes than are present is rejected - over the slice before anything is reserved, and over ANY faithful input incl. those that cannot report their remaining length. For the decoded value: every well-formed value of a `productive` type (every sequence element type consumes >= 1 input byte per element - decidable on the descriptor) holds at most memRatio(ty) heap bytes per byte of its encoding plus the fixed Box pointees (held_le_encoding_partial, structural induction over all types incl. maps, sets, bit sequences), hence per byte CONSUMED by a successful decode (held_le_consumed_partial). The statement without `productive` is proved FALSE (unproductive_unbounded: n*size_of bytes held from <= 5 input bytes for every n < 2^32) - that is finding F4. The allocation behaviour of the real code (std collections, from_iter for maps/sets/lists/heaps, String, BitVec, Bytes) is outside the model and is MEASURED, not proved: the alloc stream bounds single requests and peak live memory under a counting allocator on hostile counts at every position.",
-        "level_note": "Partial: the linear bound on TOTAL heap use is measured on the implementation (counting allocator), not proved - Vec growth, BTreeMap nodes and allocator behaviour are std's. Known finding F4 (zero-width element types: LinkedList<()>, Vec of an all-skipped struct) is reported as KNOWN-FINDING, matched by type; any other breach of the bound is a violation.",
-        "trusted_base": COMMON_TB + ["the harness's counting #[global_allocator] (self-tested each run); std collections' allocation behaviour is measured, not modelled"],
-        "assumptions": ["allocation bound constants: 192 bytes of memory per input byte, 64 KiB fixed allowance per nesting level (8 levels), 8 KiB slack"],
+        "rule": "the harness runs under a counting global allocator (armed only around the decode call; self-tested on every run). For every catalogue type (all sequence/map/set/list/heap/deque/string/bit-sequence/byte-buffer kinds and their nestings, derived types): valid encodings, and encodings in which each byte position in turn (every position of short encodings, 8 random positions of longer ones) is overwritten by a hostile compact count (2^16, 2^20, 2^24, 2^28, 2^30-1, 2^30, 2^32-2, 2^32-1) followed by 0, <64, 4096, 20000 or 65536 bytes of plausible payload; each decoded from a slice, a custom input with remaining_len = None, IoReader<Cursor>, the shared buffer (decode_from_bytes) and a zero-sized input type. (1) `reqs` requests - exact tie of the request model: for every type all of whose allocations are the crate's own (Vec/VecDeque/BinaryHeap/LinkedList/String/Box/arrays/tuples/options/enums/derived types over them; not Rc/Arc/B-trees/Bytes/BitVec/GenericArray) the allocator's view of the decode - number of requests, sum of requested bytes (fresh allocations plus realloc growth), largest request, and ok/err - from the slice and from the unknown-length input is compared for EQUALITY with the model's request trace (Impl.decodeR run under the request recorder; on failing decodes requests of exactly size_of::<Error>() - the boxed cause of a chained error - are left out on both sides); inputs above 4200 bytes are sampled 1 in 16. (2) oracles on the implementation for every type and input kind: largest single allocation <= max(64 KiB, 192 x input bytes) + 8 KiB + size_of::<T>(); peak live bytes <= 8 x 64 KiB + 192 x input bytes + 8 KiB + size_of::<T>(); no panic; a request above 2 GiB is refused and the resulting abort attributed to the request being executed. Outcomes of inputs of at most 80 bytes are also compared with the model. non-trivial = distinct request whose model answer is not `err`",
+        "level_text": "Proved in Lean for EVERY byte string (valid, truncated, hostile; successful or failing decode), over a slice and over a reader that cannot report its remaining length (any `PlainIn` input): the heap memory the decoder REQUESTS - every reserve_exact of decode_vec_chunked (item and bulk paths), every Box allocation, one node per element handed to from_iter for lists/sets/maps, made explicit in the request-instrumented decoder Impl.decodeR, which is proved to be the decoder itself up to alloc nodes (same result and rest on every hook-free input) - is at most reqRatio(ty) x bytes CONSUMED + the type's fixed pointees + reqAllow(ty), where reqAllow is one MAX_PREALLOCATION (16 KiB) plus one element's fixed pointees per level of sequence nesting, and without the allowance when the decode succeeds (requests_linear_in_consumed_partial / _in_input_partial: induction over all programs and all types through the chunk loops; claimed counts do not occur in the bound). Hypothesis `productive ty` (every sequence element type consumes >= 1 byte - decidable); without it the statement is proved FALSE (unproductive_unbounded) - finding F4. Unconditionally, over ANY input implementation and every type: every SINGLE request is at most max(16 KiB, largest boxed pointee / list node of the type) (every_request_small). Also: chunk reservations <= 16 KiB one chunk at a time; hostile primitive counts rejected over any faithful input; held memory of decoded values linear in the encoding. The request model is tied to the crate by exact comparison with a counting allocator (count, sum and maximum of requests, per input, slice and unknown-length input).",
+        "level_note": "Partial: the theorem is about the crate's own allocation sites as modelled in Impl.decodeR; what std does behind them (B-tree node allocation - modelled as at most one node per element -, Rc/Arc re-boxing, Bytes/BitVec wrappers, GenericArray's temporary Vec of fixed size) is MEASURED against fixed generous bounds, not proved. Known finding F4 (zero-width element types: LinkedList<()>, Vec of an all-skipped struct) is reported as KNOWN-FINDING, matched by type; any other breach of the bound or disagreement with the request model is a violation.",
+        "trusted_base": COMMON_TB + ["the harness's counting #[global_allocator] (self-tested each run); Vec::reserve_exact / Box allocation request exactly what is asked (std); std collections' internal allocation behaviour is measured, not modelled"],
+        "assumptions": ["allocation bound constants of the measured oracle: 192 bytes of memory per input byte, 64 KiB fixed allowance per nesting level (8 levels), 8 KiB slack", "a boxed Error (chain-error) is the only allocation of a failing decode that is not a request of the decoder"],
+        "disagreement_is_violation": False,
     },
 }
